@@ -9,7 +9,7 @@ therefore shows up as a disagreement. This side carries no proof; it is the sear
 namespace PallasVerif.Streams.Artfuzz
 open PallasVerif
 
-def kinds : List String := ["block", "tx", "hdr", "out", "addr", "val"]
+def kinds : List String := ["block", "tx", "hdr", "out", "addr", "addrstr", "val"]
 
 def step (_ : Unit) : List String → Unit × String
   | "mut" :: kind :: _ :: _ => if kinds.contains kind then ((), "returns") else ((), "bad-op")
